@@ -25,6 +25,30 @@ WRITES = {"Bucket": ["insert", "delete", "replace", "replace_last"], "Datastore"
 STORAGE = ("self.ds.storage_strategy", "self.storage_strategy")
 
 
+def _pack_edits(fi, name):
+    """statements of fi that write into the *args / **kwargs pack `name`"""
+    out = []
+    for n in walk_with_nested_exprs(fi.node):
+        tg = []
+        if isinstance(n, ast.Assign):
+            tg = n.targets
+        elif isinstance(n, (ast.AugAssign, ast.AnnAssign)):
+            tg = [n.target]
+        elif isinstance(n, ast.Delete):
+            tg = n.targets
+        for t in tg:
+            b = t
+            while isinstance(b, ast.Subscript):
+                b = b.value
+            if b is not t and isinstance(b, ast.Name) and b.id == name:
+                out.append(n)
+            elif b is t and isinstance(b, ast.Name) and b.id == name:
+                out.append(n)
+        if isinstance(n, ast.Call) and isinstance(n.func, ast.Attribute) and isinstance(n.func.value, ast.Name) and n.func.value.id == name and n.func.attr in ("pop", "popitem", "update", "setdefault", "clear", "append", "extend", "insert", "remove", "__setitem__", "__delitem__"):
+            out.append(n)
+    return out
+
+
 def wrapper_rules(prog, rep, rule="WRAP", parts=("state", "reads", "reaches", "arguments", "purity"), arg_skip=()):
     rep.rule(rule, "Datastore / Bucket keep no state besides the handle table, return what the storage returned, hand their arguments to the storage unchanged (window rounding and the `created` default aside) and do not write into the objects they are given")
     for cname in ("Datastore", "Bucket"):
@@ -126,6 +150,10 @@ def wrapper_rules(prog, rep, rule="WRAP", parts=("state", "reads", "reaches", "a
                             ds_ = [x for x in local_defs(fi, "created") if isinstance(x, ast.Assign)]
                             ok = len(ds_) == 1 and norm(ds_[0].value) in ("created or datetime.now(timezone.utc)", "created if created is not None else datetime.now(timezone.utc)", "created if created else datetime.now(timezone.utc)")
                         rep.check(ok, rule, fi.short, f"argument `{t[:40]}` of {c.func.attr}", "forwarded as given", f"{fi.short} hands `{t[:80]}` to the storage's {c.func.attr}: the value stored / looked up is not the one the caller gave", fi.loc(c))
+                        if ok and isinstance(a, ast.Name) and a.id in (fi.kwarg, fi.vararg):
+                            # a forwarded pack is forwarded as given only if the wrapper does not edit it first
+                            ed = _pack_edits(fi, a.id)
+                            rep.check(not ed, rule, fi.short, f"argument pack `{t}` of {c.func.attr}", "not edited before forwarding", (f"{fi.short} edits the argument pack before handing it on (`{norm(ed[0])[:80]}`): the storage receives entries the caller did not give, or loses / overwrites ones it gave (e.g. an explicitly passed value replaced by a default)" if ed else ""), fi.loc(ed[0]) if ed else fi.loc(c))
         # ---- purity
         if "purity" in parts:
             for fi in ci.methods.values():
